@@ -21,7 +21,7 @@ UNUSED_KEYS = ["f5", "page up", "page down", "esc", "ctrl x", "shift tab", "inse
 
 
 class CaseTimeout(BaseException):
-    """The implementation did not return within the per-case time limit (a hang is a violation)."""
+    """The implementation did not return within the per-case CPU time limit (a hang is a violation)."""
 
 
 def _on_alarm(_signum, _frame):
@@ -155,33 +155,50 @@ class C10(core.Check):
         "str mode (code points) for the model and the theorems; bytes mode is judged by the oracle only",
         "Edit.highlight is None (no Edit method sets it; checked by an AST scan of edit.py/numedit.py every run)",
         "the default command_map (left/right/up/down/home/end are the only cursor commands)",
-        "mask is None or one character; width >= 1",
-        "numeric_alphabet_inv assumes str.upper maps no non-ASCII character into the allowed alphabet "
-        "(false for U+017F, U+0131, U+FB05, U+FB06: KNOWN finding C10-numedit-upper)",
+        "mask is None or one character; width >= 1; non-empty key strings",
+        "render cache: the caller keeps only the most recently returned canvas alive (as a screen does), so a render "
+        "is served from CanvasCache exactly when the previous render had the same (width, focus) and nothing was "
+        "invalidated since",
+        "numeric_alphabet_inv for NumEdit/IntegerEdit/FloatEdit assumes str.upper maps no foreign character into the "
+        "allowed string (upper_honest); false for U+017F, U+0131, U+FB05, U+FB06: numeric_alphabet_inv_refuted + "
+        "KNOWN finding C10-numedit-upper",
+        "part-2 theorems (cursor_cell, cursor_visible, click_cell, row_home/row_end_*) speak about layout rows of the "
+        "stated shape (text segment as wide as its text, only a leading pad negative); how often real layouts have "
+        "it is counted in the evidence (hyp:* counters: always, in every run so far)",
     ]
-    level_text = ("Proved in Coq for every caption/text/flags, every event history (printable and multi-character keys, "
-                  "tab, enter, left/right/up/down/home/end, backspace, delete, unused keys, clicks, renders, "
-                  "get_pref_col, set_edit_pos) and ARBITRARY layout data, no size bound: the model's text and offset "
-                  "equal those of a small reference editor after every history (edit_refines_ref; the reference "
-                  "uses the row/column maps of the layout for up/down/home/end/click), 0 <= offset <= len always "
-                  "(pos_inv), change(new) is emitted before and postchange(old) after each modification, chained "
-                  "(signals_order), a key returned unhandled leaves text and offset unchanged and emits nothing and the "
-                  "keys the editor has no use for are returned with the state untouched (unhandled_returned), IntEdit / "
-                  "NumEdit / IntegerEdit / FloatEdit texts stay inside the alphabet apart from one leading minus "
-                  "(numeric_alphabet_inv, under an explicit hypothesis on str.upper that the real str.upper violates "
-                  "for four code points - recorded finding), the leading-zero loop has enough fuel; over well-formed "
-                  "layout rows: the cursor of a displayed offset is its character's cell (cursor_cell) and a click on "
-                  "any cell of a character selects it (click_cell).  Oracle/correspondence only: bytes mode and other "
-                  "encodings (offset on a character boundary), the drawn canvas (cursor cell holds the character, "
-                  "rows == rendered rows, render never raises), highlight is not covered.")
-    level_note = ("Trusted: Coq kernel, extraction + OCaml driver, the hand-written model (tied to the code by an exact "
-                  "per-event comparison of text, offset, return value, signals, pref_col_maxcol and the view flag), the "
-                  "layout/width/upper data taken from the implementation, the Python oracle.")
+    level_text = ("Proved in Coq, for every caption/text/flags/mask/variant, every history of events (printable, "
+                  "multi-character and unused key strings, tab, enter, left/right/up/down/home/end, backspace, delete, "
+                  "clicks, renders, get_pref_col, set_edit_pos, each with its own width) and ARBITRARY layout data, with "
+                  "no size bound: after every event the model's text, offset, preferred column, view flags and return "
+                  "value equal those of a small reference editor (edit_refines_ref, simulation by induction: insert at "
+                  "the cursor, delete before/after, move by one, go to a column of a display row through the layout's "
+                  "row/column maps, leading zeros removed in the numeric variants); 0 <= offset <= len always (pos_inv); "
+                  "the signals of every event are a chain change(new)[text still old], postchange(old)[text already new] "
+                  "from the text before to the text after (signals_order); a key returned unhandled leaves text and "
+                  "offset unchanged and emits nothing, and rejected key strings / tab without allow_tab / enter without "
+                  "multiline come back with the whole state untouched (unhandled_returned); IntEdit texts are digits; "
+                  "NumEdit/IntegerEdit/FloatEdit texts stay in the alphabet apart from one leading minus UNDER an "
+                  "explicit hypothesis on str.upper (numeric_alphabet_inv_*), and the clause without that hypothesis is "
+                  "refuted for any upper with upper(U+017F)='S' (numeric_alphabet_inv_refuted; replayed on the "
+                  "implementation: KNOWN finding); the leading-zero loop has enough fuel.  Over layout rows of a stated "
+                  "shape: the cursor of a shown offset is the cell where the layout shows it (cursor_cell), shifted into "
+                  "the w columns at clamp(x,0,w-1) in a focused view (cursor_visible), a click on any column of a "
+                  "character's cell selects that character (click_cell, column_to_offset), home/end go to the first / "
+                  "last offset of the row (row_home, row_end_*).  NOT theorem-backed (correspondence / oracle only): "
+                  "bytes mode and other encodings (offset on a character boundary; oracle on a bytes stream), the drawn "
+                  "canvas (cursor cell holds the character at the offset - KNOWN finding for a stale cached Text canvas "
+                  "-, rows() == canvas rows, render never raises), that real layouts have the assumed row shape "
+                  "(counted), the preferred-column semantics of up/down beyond what the reference editor states; "
+                  "highlight is not covered.")
+    level_note = ("Trusted: Coq kernel, extraction + OCaml driver, the hand-written model Model/Edit.v (tied to the code by "
+                  "an exact per-event comparison of text, offset, return value, signals with their arguments and the text "
+                  "at emission time, pref_col_maxcol and _shift_view_to_cursor), the layout / width / str.upper data taken "
+                  "from the implementation at each event, the Python oracle (reference editor + cell map built from the "
+                  "layout structure + canvas content).")
 
     def __init__(self):
         super().__init__()
         self._last = None
-        self._wf = {"wf_layouts": 0, "non_wf_layouts": 0}
 
     # ------------------------------------------------------------------ implementation
     def _build(self, case):
@@ -227,13 +244,14 @@ class C10(core.Check):
         from urwid import str_util
         import signal
         urwid.set_encoding(case.get("enc", "utf-8"))
-        old_handler = signal.signal(signal.SIGALRM, _on_alarm)
-        signal.setitimer(signal.ITIMER_REAL, CASE_TIME_LIMIT)
+        # CPU time of this process, not wall time: a loaded machine must not look like a hang
+        old_handler = signal.signal(signal.SIGVTALRM, _on_alarm)
+        signal.setitimer(signal.ITIMER_VIRTUAL, CASE_TIME_LIMIT)
         try:
             out = self._trace_inner(case, urwid, str_util)
         finally:
-            signal.setitimer(signal.ITIMER_REAL, 0)
-            signal.signal(signal.SIGALRM, old_handler)
+            signal.setitimer(signal.ITIMER_VIRTUAL, 0)
+            signal.signal(signal.SIGVTALRM, old_handler)
             urwid.set_encoding("utf-8")
         self._last = (key,) + out
         return out
@@ -484,7 +502,7 @@ class C10(core.Check):
             lay = lays[k] if k < len(lays) else None
             w = st[-1] if kind != "setpos" else None
             if so["err"] == "Timeout":
-                msgs.append(f"{tag}: the implementation did not return within {CASE_TIME_LIMIT:g}s (hang)")
+                msgs.append(f"{tag}: the implementation did not return within {CASE_TIME_LIMIT:g}s of CPU time (hang)")
                 return msgs
             if so["err"] is not None:
                 msgs.append(f"{tag}: raised {so['err']}")
@@ -886,6 +904,29 @@ class C10(core.Check):
                 inc("raised:" + so["err"])
             if so["sigs"]:
                 inc("signal-pairs", len(so["sigs"]) // 2)
+        # how often the hypotheses of the part-2 theorems (Properties/C10.v) hold on real layouts:
+        # observations, not verdicts
+        if not case.get("bytes"):
+            from urwid import str_util
+            _r, lays, obs = self._trace(case)
+            p = len(case["text"]) if case["pos"] is None else min(max(case["pos"], 0), len(case["text"]))
+            for st, so, lay, ob in zip(case["steps"], res["steps"], lays, obs):
+                if lay is not None and (st[0] in ("render", "click") or (st[0] == "key" and st[1] in LAYOUT_KEYS)):
+                    disp = ob.get("disp", "")
+                    ok = True
+                    for ln in lay:
+                        for i, seg in enumerate(ln):
+                            if len(seg) == 3 and isinstance(seg[2], int):
+                                if seg[0] != sum(str_util.get_char_width(c) for c in disp[seg[1]:seg[2]]):
+                                    ok = False
+                            if (i > 0 or (len(seg) == 2 and seg[1] is not None) or len(seg) == 3) and seg[0] < 0:
+                                ok = False
+                    inc("hyp:rows-have-the-shape-of-cell_in_row" if ok else "hyp:row-shape-NOT-as-assumed")
+                    q = p + len(case["caption"])
+                    shown = any((len(seg) == 2 and seg[1] == q) or (len(seg) == 3 and (seg[1] == q or (isinstance(seg[2], int) and seg[1] <= q < seg[2])))
+                                for ln in lay for seg in ln)
+                    inc("hyp:cursor-offset-shown" if shown else "hyp:cursor-offset-not-shown(ellipsis/empty layout)")
+                p = so["pos"]
 
     # ------------------------------------------------------------------ generators
     CHARS = ["a", "b", " ", WIDE, ACC, COMB, "a", " "]
@@ -1002,9 +1043,9 @@ class C10(core.Check):
             yield from self.exhaustive_cases([2, 3], ["space", "clip"], ["center"], 3)
         else:
             yield from self.exhaustive_cases([1, 2, 3, 4], ["any", "space", "clip", "ellipsis"], ["left", "center", "right"], 3)
-        for _ in range(2500 if quick else 30000):
+        for _ in range(3500 if quick else 30000):
             yield self.random_edit_case(rng, rng.choice([4, 8, 12, 20]))
-        for _ in range(900 if quick else 10000):
+        for _ in range(1500 if quick else 10000):
             yield self.random_num_case(rng, rng.choice([4, 8, 14]))
 
     def search_cases(self, rng, tier):
